@@ -121,8 +121,8 @@ func init() {
 		Assumptions: []string{"the Go race detector reports only races on executions it sees (happens-before based, no false positives)", "concurrent reconfiguration of a logger is outside the claim and not generated"},
 		Floors:      map[string]int64{"records_decoded": 5000, "max:max_writes_in_flight": 2, "goroutine_switches_in_arrival_order": 100, "print_contexts_used_by_several_goroutines": 1},
 		Jobs: func(tier string, seed int64) []Job {
-			js := chunk("stress", "prod", pick(tier, 12, 300), pick(tier, 2, 10), Job{Timeout: 30 * time.Minute})
-			js = append(js, chunk("stress", "prod", pick(tier, 8, 200), pick(tier, 2, 10), Job{Race: true, Args: []string{"-x", "race=1"}, Timeout: 40 * time.Minute})...)
+			js := chunk("stress", "prod", pick(tier, 32, 300), pick(tier, 2, 10), Job{Timeout: 30 * time.Minute})
+			js = append(js, chunk("stress", "prod", pick(tier, 16, 200), pick(tier, 2, 10), Job{Race: true, Args: []string{"-x", "race=1"}, Timeout: 40 * time.Minute})...)
 			return js
 		},
 	})
